@@ -243,10 +243,17 @@ static PARAMS: &[(usize, u128)] = &[(1, 1), (1, 3), (2, 1), (2, 2), (3, 1), (3, 
 // (bucket count, width) whose year does not divide 2^64 ns, used by the far-future scripts
 static FAR_PARAMS: &[(usize, u128)] = &[(3, 1_000_000_000_000_000_000), (5, 700_000_000_000_000_000)];
 
+static TRACE: std::sync::atomic::AtomicBool = std::sync::atomic::AtomicBool::new(false);
+
 /// the script being executed, for the watchdog (a mutated queue may loop forever inside fetch_next / peek_time)
 static CURRENT: std::sync::Mutex<(u64, usize, u128, Vec<Op>)> = std::sync::Mutex::new((0, 0, 0, Vec::new()));
 
 fn set_current(n: usize, t: u128, script: &[Op]) {
+    // CQ_TRACE=1: print every script before it runs (used by the driver's caller to identify a script that kills the process)
+    if TRACE.load(std::sync::atomic::Ordering::Relaxed) {
+        let ops: Vec<String> = script.iter().map(op_json).collect();
+        eprintln!("{{\"n\":{},\"t_ns\":{},\"script\":[{}]}}", n, t, ops.join(","));
+    }
     let mut c = CURRENT.lock().unwrap();
     c.0 += 1;
     c.1 = n;
@@ -274,6 +281,7 @@ fn start_watchdog() {
 
 fn search(depth: usize, nrandom: usize, seed: u64, filter: &str) -> i32 {
     std::panic::set_hook(Box::new(|_| {}));
+    if std::env::var("CQ_TRACE").is_ok() { TRACE.store(true, std::sync::atomic::Ordering::Relaxed); }
     start_watchdog();
     let mut scripts: u64 = 0;
     let mut other: Option<String> = None; // first mismatch that does not carry the property asked for
